@@ -358,4 +358,16 @@ def obligations(tier, sc):
             ob.name = "winsort_valid_stream_" + ob.name
             obs.append(ob)
             n += 1
+    # ---- task events of the task-based models on the real task.c / body.c (no ghosts): memory safety of the nOS-V and
+    # Nanos6 handlers for every task event in the depth-2 stack topologies.  These are C07's model-layer obligations
+    # re-run under this property (CBMC's pointer checks are on there as everywhere): a seeded change let a buried
+    # paused body resume, after which the handler dereferenced a NULL "running body" (SIGSEGV in ovniemu); the
+    # payload obligations above use a task ghost and cannot reach that state.
+    from checks import C07 as _c07
+    for model in ("nosv", "nanos6"):
+        for ob in _c07.model_obligations(model, tier):
+            if ob.info_only or "." not in ob.name:
+                continue
+            ob.name = "task_events_no_crash_" + ob.name
+            obs.append(ob)
     return obs
